@@ -7,23 +7,24 @@ META = {
     "technique": "Coq proofs over the mirror-kernel model with an explicit store-write log (log = store delta for every operation, "
                  "crash states = write prefixes, start-up re-verifies every stored vote for ALL store contents) + differential "
                  "correspondence with the real mirror under injected crashes (write budgets) and restarts + Coq monitors",
-    "level": "P/partial. Proved (Properties/C10.v, C10Resume.v): each operation's store effect is exactly the replay of its logged writes (so "
-             "the crash model explores precisely the states a stop between two store writes can leave); a crash after the last write is "
-             "a clean restart; START-UP NEVER FAILS: from the stores left by ANY prefix of the writes of ANY admissible operation in any "
-             "state reached by operations, crashes and restarts, the model's NewKernel comes up (C10_startup_never_fails_any_cut_partial), "
-             "and on ANY stores satisfying the store invariant it comes up in a state satisfying all kernel invariants "
-             "(C10_restart_total_on_store_invariant); NO REGRESSION: committed headers are kept, heights never decrease, rounds only "
-             "move by increments, and the restarted node is at most one height ahead of the uninterrupted run; the kernel invariants "
-             "(and with them the theorems of C01/C04/C05/C07) hold again after every crash/restart at a clean cut. Guards: accepted "
-             "headers announce a next validator set with positive power (and, in the model only, at least one key); the one crash point "
-             "between the committed-header write and the position write is covered for start-up but histories are not continued from "
-             "it. Refuted: the restarted node can be AHEAD of the uninterrupted run in rounds (known finding). A first version of the "
-             "start-up theorem was REFUTED by a witness (an entry without signatures persisted by the future-vote path) that reproduced on "
-             "the real mirror and was repaired there. Monitored on every run against the real mirror with a stop after every k-th "
-             "store write: start-up succeeds, nothing regresses, persisted votes are reloaded, redelivery converges. State-machine half: "
-             "the real tmstate.StateMachine is restarted on the same stores inside generated and scripted histories; a Coq monitor checks "
-             "that it resumes in the round the stores prescribe and never emits a vote twice (the emission theorem is C02's); engine "
-             "start-up (init-chain) is outside the models.",
+    "level": "P/partial. Proved (Properties/C10.v, C10Resume.v), for every history of operations, clean restarts and crashes at EVERY point "
+             "(any prefix of the store writes of any admissible operation, including the stop between the committed-header write and the "
+             "position write of a commit): each operation's store effect is exactly the replay of its logged writes; START-UP NEVER FAILS "
+             "(C10_startup_never_fails) and re-establishes all kernel invariants (C10_invariants_after_every_xstep: INV, tinv, the store "
+             "invariant SI - so the theorems of C01/C04/C05/C07 extend to histories with crashes); on ANY stores satisfying SI start-up is "
+             "total (C10_restart_total_on_store_invariant); after the header-write crash point the restart re-commits the same header "
+             "(C10_restart_recommits_after_header_write); NO REGRESSION: committed headers are kept, heights never decrease, rounds only move "
+             "by increments, the restarted node is at most one height ahead of the uninterrupted run (C10_no_regression, "
+             "C10_crash_height_bound); PERSISTED VOTES ARE RELOADED for the voting and next-round views when the position is the same "
+             "(C10_persisted_votes_reloaded_partial, with the view/round-store correspondence C10_view_store_correspondence as an invariant) "
+             "- open: the committing view, and reload relative to the state before a crashed operation. Guards: accepted headers announce a "
+             "next validator set with positive power (and, in the model only, at least one key). Refuted: the restarted node can be AHEAD "
+             "of the uninterrupted run in rounds (known finding). A first version of the start-up theorem was REFUTED by a witness (an entry "
+             "without signatures persisted by the future-vote path) that reproduced on the real mirror and was repaired there. Monitored on "
+             "every run against the real mirror with a stop after every k-th store write: start-up succeeds, nothing regresses, persisted "
+             "votes are reloaded, redelivery converges. State-machine half: the real tmstate.StateMachine is restarted on the same stores "
+             "inside generated and scripted histories; a Coq monitor checks that it resumes in the round the stores prescribe and never "
+             "emits a vote twice (the emission theorem is C02's); engine start-up (init-chain) is outside the models.",
     "note": "Trusted: Coq kernel; crash = the stores keep a prefix of the operation's write calls (each store method atomic); "
             "in-memory stores only; correspondence harness with write-budget store wrappers. No axioms.",
     "design_ref": "DESIGN.md 4 (C10)",
